@@ -485,6 +485,7 @@ type nlStream struct {
 func nlBinStream() nlStream {
 	msgs := []*rwp.OutboundMessage{
 		{Events: []*rwp.HWCEvent{{HWCID: 1, Binary: &rwp.BinaryEvent{Pressed: true}}}},
+		{}, // a complete frame with an empty payload (the default message marshals to zero bytes)
 		{Events: []*rwp.HWCEvent{{HWCID: 2, Pulsed: &rwp.PulsedEvent{Value: 1}}}},
 		{Events: []*rwp.HWCEvent{{HWCID: 3, Absolute: &rwp.AbsoluteEvent{Value: 500}}}},
 	}
